@@ -664,14 +664,15 @@ impl IoLoop {
 
         let mut events = Events::with_capacity(128);
         let mut listening_to_channels = true;
-        // The connection timeout is about the peer staying silent: only something arriving
-        // on the socket pushes it back, not our own timers (or writes) waking us up.
-        let mut last_stream_event = Instant::now();
+        // The connection timeout bounds this whole phase (the handshake): a peer that keeps
+        // the socket busy without ever getting anywhere - heartbeats but no OpenOk - must
+        // not keep us here for ever, and neither must our own timers waking us up.
+        let deadline = self.connection_timeout.map(|timeout| Instant::now() + timeout);
         loop {
-            let poll_timeout = match &self.connection_timeout {
-                Some(timeout) => match timeout.checked_sub(last_stream_event.elapsed()) {
-                    Some(left) => Some(left),
-                    None => return ConnectionTimeoutSnafu.fail(),
+            let poll_timeout = match deadline {
+                Some(deadline) => match deadline.checked_duration_since(Instant::now()) {
+                    Some(left) if left > Duration::from_millis(0) => Some(left),
+                    _ => return ConnectionTimeoutSnafu.fail(),
                 },
                 None => None,
             };
@@ -680,12 +681,6 @@ impl IoLoop {
                 .context(FailedToPollSnafu)?;
             if events.is_empty() {
                 continue;
-            }
-            if events
-                .iter()
-                .any(|ev| ev.token() == STREAM && ev.readiness().is_readable())
-            {
-                last_stream_event = Instant::now();
             }
 
             let had_data_to_write = self.inner.has_data_to_write();
